@@ -132,7 +132,7 @@ def finish(pid, pmod, tier, seed, results, wall):
     for res in results:
         if res.get('error'):
             faults.append(f"{res['contract']}[{res.get('instance', '')}]: {res['error']}")
-            if res.get('trace'):
+            if res.get('trace') and os.environ.get('PYVC_TRACE'):
                 sys.stderr.write(res['trace'] + '\n')
             if not res.get('obligations'):
                 continue
